@@ -36,11 +36,12 @@ def init(ctx):
 def gen_cases(ctx):
     for inp in ctx.corpus():
         yield inp
-    n = ctx.n(300, 5000)
+    n = ctx.n(300, 3000)
     for i in range(n):
         rng = ctx.rng("drift", i)
         mv = linkcommon.gen_movie(rng, thorough=ctx.thorough, plant_history=True)
         mv["stream"] = "drift"
+        mv["scale_pow"] = 0
         mv["entry"] = "link_iter"
         mv["strategy"] = rng.choice(["recursive", "nonrecursive", "numba", None])
         mv["tstep"] = rng.choice([1, 1, 2])
